@@ -170,7 +170,7 @@ func (l *DList[T]) Delete(node *DoubleNode[T]) error {
 	}
 
 	// Check if the node to be deleted is the head node.
-	if head.Value == node.Value {
+	if head == node {
 		l.DoubleNode = *head.next
 		l.relink()
 		return nil
